@@ -226,11 +226,24 @@ def r15_ref_pattern(sig, body):
     return sig, body, n
 
 
+def r8_str_slice(sig, body):
+    """R8: `&E[a..b]` (on str) -> `str_slice(E, a, b)`; the stub's precondition a <= b <= len && boundaries IS the no-panic obligation"""
+    n = 0
+    while True:
+        m = re.search(r'&([A-Za-z_][\w.()]*?)\[([^\[\]]+?)\.\.([^\[\]]+?)\]', body)
+        if not m:
+            break
+        body = body[:m.start()] + 'str_slice(%s, %s, %s)' % (m.group(1), m.group(2).strip(), m.group(3).strip()) + body[m.end():]
+        n += 1
+    return sig, body, n
+
+
 RULES = {
     'R1': r1_error_macro,
     'R3': r3_continue_guard,
     'R5': r5_enumerate,
     'R6': r6_ne_bytes,
+    'R8': r8_str_slice,
     'R9': r9_borrow,
     'R10': r10_cfg,
     'R11': r11_common_prefix,
